@@ -33,7 +33,17 @@ fn run(dir: &std::path::Path, args: &[OsString], stdin: Option<&[u8]>) -> Result
     let mut child = cmd.spawn().map_err(|e| format!("ENGINE: cannot run {:?}: {}", b3sum_bin(), e))?;
     if let Some(data) = stdin {
         let mut si = child.stdin.take().unwrap();
-        let _ = si.write_all(data);
+        // short inputs (keys, small checkfiles) arrive in two writes with a pause in between every other time: a reader
+        // must keep reading until end of input (what it sees then depends on the pipe, not on the sender's chunking)
+        if data.len() >= 2 && data.len() <= 64 && data[data.len() / 2] % 2 == 1 {
+            let cut = 1 + (data[0] as usize) % (data.len() - 1);
+            let _ = si.write_all(&data[..cut]);
+            let _ = si.flush();
+            std::thread::sleep(std::time::Duration::from_millis(25));
+            let _ = si.write_all(&data[cut..]);
+        } else {
+            let _ = si.write_all(data);
+        }
     }
     let o = child.wait_with_output().map_err(|e| format!("ENGINE: wait: {}", e))?;
     Ok(Out { code: o.status.code(), stdout: o.stdout, stderr: o.stderr })
